@@ -538,5 +538,106 @@ pub fn for_each_group(suite: &Value, seed: u64, f: &mut dyn FnMut(usize, Vec<Cas
             }
         }
     };
+    if suite["inputs"].get("groups").is_some() || suite["inputs"].get("wf").is_some() {
+        // groups of renderings of one structure (C12): every rendering x configuration of a group
+        // is compared with the first one
+        let mut groups: Vec<Vec<Vec<u8>>> = vec![];
+        if let Some(gs) = suite["inputs"].get("groups") {
+            for g in gs.as_array().unwrap() {
+                groups.push(g.as_array().unwrap().iter().map(|x| x.as_array().unwrap().iter().map(|b| b.as_u64().unwrap() as u8).collect()).collect());
+            }
+        }
+        if let Some(w) = suite["inputs"].get("wf") {
+            let n = w["n"].as_u64().unwrap_or(100) as usize;
+            for _ in 0..n {
+                groups.push(wellformed_renderings(&mut rng, &fmt, w));
+            }
+        }
+        let hs = histories(suite, &mut hrng, slots);
+        for g in &groups {
+            let maxlen = g.iter().map(|x| x.len()).max().unwrap_or(0);
+            let caps = caps_for(suite, maxlen);
+            for h in &hs {
+                let mut cases = vec![];
+                for (ri, x) in g.iter().enumerate() {
+                    for (ci, &cap) in caps.iter().enumerate() {
+                        for ch in &chunksets {
+                            cases.push(Case {
+                                fmt: fmt.clone(), x: x.clone(), cap, chunks: ch.clone(), intr_every: 0, fault_at: 0, fault_kind: "other".into(),
+                                pol: PolKind::Std, ops: h.ops.clone(), tail: h.tail.clone(), into: h.into, extra, slots, views, alloc, serde,
+                                grp: gi, first: ri == 0 && ci == 0 && cases.is_empty(), pp: pair.clone(),
+                            });
+                        }
+                    }
+                }
+                f(gi, cases);
+                gi += 1;
+            }
+        }
+        return;
+    }
     for_each_input(suite, &fmt, &mut rng, &mut inputs_fn);
+}
+
+/// a well-formed file (fields free of CR/LF) rendered with LF / CRLF, with / without final
+/// terminator, and (FASTA) with per-line mixtures of the two endings
+pub fn wellformed_renderings(rng: &mut Rng, fmt: &str, p: &Value) -> Vec<Vec<u8>> {
+    let maxrec = p["maxrec"].as_u64().unwrap_or(4) as usize;
+    let maxfield = p["maxfield"].as_u64().unwrap_or(6) as usize;
+    let alpha: Vec<u8> = vec![b'A', b'C', b'G', b' ', b'@', b'+', b'>', b'I', 0xC3, 0xA9, b';'];
+    let field = |rng: &mut Rng, n: usize| -> Vec<u8> { (0..n).map(|_| *rng.pick(&alpha)).collect() };
+    // lines of the file, LF-free
+    let mut lines: Vec<Vec<u8>> = vec![];
+    let nrec = 1 + rng.below(maxrec);
+    for _ in 0..nrec {
+        if fmt == "fasta" {
+            let mut h = vec![b'>'];
+            let n0 = rng.below(maxfield + 1);
+            h.extend(field(rng, n0));
+            lines.push(h);
+            for _ in 0..rng.below(4) {
+                let n1 = 1 + rng.below(maxfield);
+                let mut l = field(rng, n1);
+                if l[0] == b'>' {
+                    l[0] = b'A';
+                }
+                lines.push(l);
+            }
+        } else {
+            let mut h = vec![b'@'];
+            let n0 = rng.below(maxfield + 1);
+            h.extend(field(rng, n0));
+            lines.push(h);
+            let n = rng.below(maxfield + 1);
+            lines.push(field(rng, n));
+            let mut sep = vec![b'+'];
+            if rng.chance(1, 4) {
+                sep.extend(field(rng, 2));
+            }
+            lines.push(sep);
+            lines.push(field(rng, n));
+        }
+    }
+    let render = |eol: &dyn Fn(usize) -> bool, fin: bool| -> Vec<u8> {
+        let mut out = vec![];
+        for (i, l) in lines.iter().enumerate() {
+            out.extend(l);
+            if i + 1 < lines.len() || fin {
+                if eol(i) {
+                    out.push(13);
+                }
+                out.push(10);
+            }
+        }
+        out
+    };
+    let mut v = vec![render(&|_| false, true), render(&|_| false, false), render(&|_| true, true), render(&|_| true, false)];
+    if fmt == "fasta" {
+        for _ in 0..2 {
+            let mask = rng.next();
+            let fin = rng.chance(1, 2);
+            v.push(render(&|i| (mask >> (i % 60)) & 1 == 1, fin));
+        }
+    }
+    v
 }
